@@ -58,7 +58,9 @@ def resolveClipPath (url : String) (T : Aff Float) : (fuel : Nat) → DocM ClipP
     for ch in cp.children.filter Node.isLxmlNode do
       if !ch.isElem then fail .typeError
       if !isShapeTag ch.tag then fail .valueError           -- from_element: "Bad tag"
-      let sh ← liftE (ShapeRec.fromElement ch [])
+      -- clip-rule set on the clipPath is inherited by a child without its own
+      let inh : Attrs := match cp.getAttr "clip-rule" with | some v => [("clip-rule", v)] | none => []
+      let sh ← liftE (ShapeRec.fromElement ch inh)
       let Tc ← liftE (elementTransform ch T1)
       let d ← applyTransformD sh Tc
       ds := ds ++ [(d, sh.getS "clip_rule")]
@@ -121,6 +123,17 @@ def dashArray (s : String) : Except PyErr (List Float) := do
   let vals ← toks.mapM (fun t => pyFloat (String.ofList t))
   pure (if vals.length % 2 != 0 then vals ++ vals else vals)
 
+/-- the two pieces `SVG._stroke` builds once Skia has returned the outline `d`: (fill piece, stroke piece) -/
+def strokePieces (shape : ShapeRec) (d : String) : ShapeRec × ShapeRec :=
+  let st0 := shape.set "d" (.s d)
+  let st1 := (st0.set "fill_rule" (.s "nonzero")).set "clip_rule" (.s "nonzero")
+  let st2 := st1.set "opacity" (.f (st1.getF "opacity" * st1.getF "stroke_opacity"))
+  let st3 := st2.set "fill" (.s (st2.getS "stroke"))
+  let sh1 := shape.set "opacity" (.f (shape.getF "opacity" * shape.getF "fill_opacity"))
+  let sh2 := resetStrokeFields (sh1.set "fill_opacity" (.f 1.0))
+  let st4 := resetStrokeFields (st3.set "fill_opacity" (.f 1.0))
+  (sh2, st4)
+
 /-- `SVG._stroke(shape)` → the pieces in draw order -/
 def strokeSplit (root : Node) (shape : ShapeRec) : DocM (List ShapeRec) := do
   let tol ← liftE (tolerance root)
@@ -131,13 +144,7 @@ def strokeSplit (root : Node) (shape : ShapeRec) : DocM (List ShapeRec) := do
       "[" ++ " ".intercalate (dash.map F64.ntos) ++ "]", F64.ntos (shape.getF "stroke_dashoffset")])
   let res ← askCmds q
   let d ← liftE (Path.print res)
-  let st0 := shape.set "d" (.s d)
-  let st1 := (st0.set "fill_rule" (.s "nonzero")).set "clip_rule" (.s "nonzero")
-  let st2 := st1.set "opacity" (.f (st1.getF "opacity" * st1.getF "stroke_opacity"))
-  let st3 := st2.set "fill" (.s (st2.getS "stroke"))
-  let sh1 := shape.set "opacity" (.f (shape.getF "opacity" * shape.getF "fill_opacity"))
-  let sh2 := resetStrokeFields (sh1.set "fill_opacity" (.f 1.0))
-  let st4 := resetStrokeFields (st3.set "fill_opacity" (.f 1.0))
+  let (sh2, st4) := strokePieces shape d
   if !(← mightPaintM sh2) then return [st4]
   pure [sh2.set "id" (.s ""), st4.set "id" (.s "")]
 
@@ -223,18 +230,30 @@ def simplifyShape (c : SCtx) (defsUid : Nat) : DocM Unit := do
     let root ← getRoot
     setRoot (Node.replaceUid root c.uid news)
 
-/-- `_remove_orphaned_gradients()` + the non-gradient purge of the master defs -/
-def removeOrphanedGradients (defsUid : Nat) : DocM Unit := do
+/-- the ids of the gradients that paint something: the fills of all shapes and of the text elements
+    (`//svg:text | //svg:tspan | //svg:textPath`) -/
+def usedGradientIds : DocM (List String) := do
   let shapes ← elements
   let root ← getRoot
-  let mut used : List String := []
+  let mut fills : List String := []
   for (_, shs) in shapes do
     for sh in shs do
-      let f := sh.getS "fill"
-      if f.startsWith "url(" then
-        match resolveUrl root f "*" with
-        | .ok el => if isGradientTag el.tag then used := used ++ [(el.getAttr "id").getD ""]
-        | .error _ => pure ()
+      fills := fills ++ [sh.getS "fill"]
+  for n in root.elems do
+    if (Node.splitNs n.tag).1 == some svgNs && ["text", "tspan", "textPath"].contains n.localTag then
+      fills := fills ++ [(n.getAttr "fill").getD ""]
+  let mut used : List String := []
+  for f in fills do
+    if f.startsWith "url(" then
+      match resolveUrl root f "*" with
+      | .ok el => if isGradientTag el.tag then used := used ++ [(el.getAttr "id").getD ""]
+      | .error _ => pure ()
+  pure used
+
+/-- `_remove_orphaned_gradients()` + the non-gradient purge of the master defs -/
+def removeOrphanedGradients (defsUid : Nat) : DocM Unit := do
+  let used ← usedGradientIds
+  let root ← getRoot
   let grads := root.elems.filter (fun n => (Node.splitNs n.tag).1 == some svgNs && isGradLocal n.localTag)
   let mut r := root
   for g in grads do
